@@ -7,5 +7,5 @@ mkdir -p $B
 cd $B
 coqc -Q /verif/coq/Gen TW -Q /verif/coq/Base TW -Q /verif/coq/Model TW -Q /verif/coq/Spec TW -Q /verif/coq/Extract TW /verif/coq/Extract/Extract.v >/dev/null
 cp /verif/ocaml/*.ml $B/
-ocamlfind ocamlopt -O3 -w -a -package str twmodel_ext.mli twmodel_ext.ml util.ml model.ml oracles.ml driver.ml -o twmodel 2>&1 || \
-ocamlfind ocamlopt -w -a twmodel_ext.mli twmodel_ext.ml util.ml model.ml oracles.ml driver.ml -o twmodel
+ocamlfind ocamlopt -O3 -w -a -package str twmodel_ext.mli twmodel_ext.ml util.ml model.ml spec.ml oracles.ml driver.ml -o twmodel 2>&1 || \
+ocamlfind ocamlopt -w -a twmodel_ext.mli twmodel_ext.ml util.ml model.ml spec.ml oracles.ml driver.ml -o twmodel
